@@ -127,6 +127,23 @@ def _conf():
     return cfg.CONF
 
 
+class _TimeNS(object):
+    pass
+
+
+class ConfProxy(object):
+    """stands in for the module-level name CONF inside yabgp.core.fsm / yabgp.core.protocol: group `time` is a
+    plain namespace (so configured times may be symbolic - oslo.config would coerce, i.e. realise, them);
+    everything else is the real oslo CONF."""
+
+    def __init__(self, real, time_ns):
+        object.__setattr__(self, '_real', real)
+        object.__setattr__(self, 'time', time_ns)
+
+    def __getattr__(self, name):
+        return getattr(object.__getattribute__(self, '_real'), name)
+
+
 class World(object):
     def __init__(self, cfgd=None):
         c = dict(DEFAULT_CFG)
@@ -155,10 +172,19 @@ class World(object):
         self.peering.bgp_id = c['bgp_id']
         CONF.bgp.running_config['factory'] = self.peering
         self.fsm = self.peering.fsm
-        # configured times may be symbolic: oslo.config would coerce (realise) them, so they are
-        # put where FSM.__init__ copies them to
+        # configured times may be symbolic: oslo.config would coerce (realise) them, so they are put where
+        # FSM.__init__ copies them to, and the name CONF inside the session modules sees them as group `time`
         for k in self._time_keys:
             setattr(self.fsm, k, c[k])
+        tns = _TimeNS()
+        for k in self._time_keys:
+            setattr(tns, k, c[k])
+        tns.bgp_peer_call_later_time = 15
+        import yabgp.core.fsm as _fsm_mod
+        import yabgp.core.protocol as _proto_mod
+        proxy = ConfProxy(CONF, tns)
+        _fsm_mod.CONF = proxy
+        _proto_mod.CONF = proxy
         self.errors = []
 
     # ---- observation ---------------------------------------------------------------
